@@ -9,7 +9,8 @@ from ..core.values import (K, T, Obj, TupleV, ListV, DictV, FuncRef, ExtRef,
 
 MOD = 'specs_matcher'
 
-STRS = ('1', '2', '1.0', '01', '10', 'a', 'b', 'ab', '')
+STRS = ('1', '2', '1.0', '01', '10', 'a', 'b', 'ab', '', '4000000000',
+        '4000000001', '2.5', '2.5000000001')
 NUMERIC = {'=': '>=', '!=': '!=', '<=': '<=', '<': '<', '==': '==',
            '>=': '>=', '>': '>'}
 STRING = {'s!=': '!=', 's<': '<', 's<=': '<=', 's==': '==', 's>': '>',
@@ -141,6 +142,11 @@ def run(ctx):
                 _row(ctx, k, fn, x, ys, g, rule='R18.2')
     _grammar(ctx, keys)
     _match(ctx, keys)
+    rep.rule('R18.5', 'match() end to end: the grammar term is instantiated '
+             'with the installed pyparsing and match(value, spec) is '
+             'followed for value x spec strings (operators glued or spaced, '
+             '1..4 <or> alternatives, padded bare words)')
+    _end_to_end(ctx, keys)
 
 
 def _row(ctx, k, fn, x, ys, grids, rule='R18.1'):
@@ -399,3 +405,139 @@ def _match(ctx, keys):
           toks[3]: ('20', '10'), toks[4]: (']', ')')}
     grid_compare(rep, 'R18.4', 'match:nary', 'match() with 3/5-token parse '
                  'results', outcomes, g2, oracle, value_eq=veq)
+
+
+# ------------------------------------------------------------ end to end
+def _pp_hook(v, val):
+    """Instantiates the extracted grammar term with the installed pyparsing
+    (trusted) so that match() can be evaluated end to end on spec strings."""
+    import pyparsing as pp
+    from ..core.termeval import ev, Raised
+    hooks = [_pp_hook]
+    if isinstance(v, T) and v.op in ('call', 'parseaction', 'binop',
+                                     'unop') and v in _PP_CACHE:
+        return _PP_CACHE[v]
+    r = _pp_build(v, val, pp, ev, Raised, hooks)
+    if r is not NotImplemented and isinstance(v, T) and v.op in (
+            'call', 'parseaction', 'unop') and isinstance(
+                r, pp.ParserElement):
+        _PP_CACHE[v] = r
+    return r
+
+
+_PP_CACHE = {}
+
+
+def _pp_build(v, val, pp, ev, Raised, hooks):
+    if isinstance(v, T) and v.op == 'call' and isinstance(v.args[0], str) \
+            and v.args[0].startswith('pyparsing.'):
+        fn = getattr(pp, v.args[0].split('.', 1)[1])
+        pos, kw = [], {}
+        for a in v.args[1:]:
+            if isinstance(a, T) and a.op == 'kw':
+                kw[a.args[0]] = ev(a.args[1], val, hooks)
+            else:
+                pos.append(ev(a, val, hooks))
+        return fn(*pos, **kw)
+    if isinstance(v, T) and v.op == 'unop' and v.args[0] == 'Invert':
+        return ~ev(v.args[1], val, hooks)
+    if isinstance(v, T) and v.op == 'parseaction':
+        base = ev(v.args[0], val, hooks).copy()
+        params, body = v.args[1], v.args[2]
+
+        def action(s_, l_, t_):
+            v2 = dict(val)
+            for p_, x in zip(params, (s_, l_, t_)):
+                v2[p_] = x
+            return ev(body, v2, hooks)
+        base.setParseAction(action)
+        return base
+    if isinstance(v, T) and v.op == 'mcall' and v.args[1] in (
+            'parseString', 'parse_string'):
+        g = ev(v.args[0], val, hooks)
+        s_ = ev(v.args[2], val, hooks)
+        try:
+            return list(g.parseString(s_))
+        except pp.ParseException:
+            raise Raised('pyparsing.ParseException')
+    return NotImplemented
+
+
+def _rebind_parse_action(interp, base, margs):
+    from ..core.values import FuncRef
+    f = margs[0]
+    if not isinstance(f, FuncRef):
+        interp.inexact('parse action is not a function')
+        return base
+    n = len(f.node.args.args)
+    params = tuple(T('sym', 'pa%d' % i) for i in range(n))
+    body = interp.termify(interp.call(f, list(params)))
+    return T('parseaction', base, params, body)
+
+
+def _end_to_end(ctx, keys):
+    from ..core.table import guided_compare
+    rep, world = ctx.report, ctx.world
+    f = world.func(MOD, 'match')
+    value, spec = T('sym', 'value'), T('sym', 'spec')
+
+    def thunk(interp):
+        return interp.call(f, [value, spec])
+
+    def setup(interp):
+        interp.pure_calls.add('ast.literal_eval')
+        interp.call_raises.update(RAISES)
+        for n in ('Literal', 'Regex', 'OneOrMore', 'ZeroOrMore', 'Optional',
+                  'Suppress', 'Group', 'Word', 'Keyword', 'MatchFirst',
+                  'And', 'Or', 'oneOf', 'one_of', 'Combine', 'Opt'):
+            interp.pure_calls.add('pyparsing.' + n)
+        interp.pure_methods.update({'parseString', 'parse_string'})
+        interp.method_raises['parseString'] = ['pyparsing.ParseException']
+        interp.method_raises['parse_string'] = ['pyparsing.ParseException']
+        interp.rebind_methods['setParseAction'] = _rebind_parse_action
+        interp.rebind_methods['set_parse_action'] = _rebind_parse_action
+        interp.types[value] = 'str'
+        interp.types[spec] = 'str'
+    specs = []
+    for op in sorted(NUMERIC) + sorted(STRING):
+        specs += ['%s 5' % op, '%s  5.0' % op, '%s5' % op]
+    specs += ['<in> bc', '<in>  x', '<or> a <or> b', '<or> a',
+              '<or> a <or> b <or> 17', '<or> a <or> b <or> c <or> 5',
+              "<all-in> aes mmx", '<all-in> aes', '<range-in> [ 1 5 ]',
+              '<range-in> ( 1 5 )', '<range-in> ( 5 9 ]', 'abc', ' abc',
+              'abc ', '5', '', 'a b', '= ', 's== a b']
+    values = ('5', '5.0', '6', '4', 'abc', '17', 'a', "['aes', 'mmx']",
+              ' abc')
+
+    def oracle(v):
+        sp, x = v['spec'], v['value']
+        toks = sp.split()
+        if not toks:
+            return ('return', sp == x)
+        op = toks[0]
+        rest = toks[1:]
+        glued = None
+        for cand in ([] if op in DOCUMENTED else
+                     sorted(DOCUMENTED, key=len, reverse=True)):
+            if op.startswith(cand) and op != cand and \
+                    cand not in ('<or>', '<in>', '<all-in>', '<range-in>'):
+                glued = cand
+                break
+        if glued:
+            rest = [op[len(glued):]] + rest
+            op = glued
+        if op not in DOCUMENTED or not rest:
+            if len(toks) == 1:
+                return ('return', toks[0] == x)
+            return None     # several bare words: not in the grammar's domain
+        if op == '<or>':
+            alts = [t for t in rest if t != '<or>']
+            return doc_semantics(op, x, alts)
+        if op in NUMERIC or op in STRING or op == '<in>':
+            if len(rest) != 1:
+                return None
+        return doc_semantics(op, x, rest)
+    guided_compare(rep, 'R18.5', 'match:end-to-end', 'match(value, spec) '
+                   'through the real grammar', world, thunk,
+                   {value: values, spec: tuple(specs)}, oracle,
+                   hooks=[_pp_hook], value_eq=_bool_eq, setup=setup, depth=7)
